@@ -349,11 +349,6 @@ func c07Recursion(r *lp.Run, rng *lp.Rand) {
 			continue
 		}
 		f := lp.PropFail{Property: "C07", What: "a schema cycle does not yield a recursive type that compiles", Input: j.input(), Observed: truncN(m, 600), Expected: "the generated package type-checks"}
-		if strings.Contains(j.what, "nullable-optional") {
-			f.Class = "K15"
-			r.Known(f)
-			continue
-		}
 		r.Fail(f)
 	}
 }
